@@ -322,7 +322,7 @@ func VerifC06Field() {
 		doc.set(fjson, arr)
 	case 3:
 		o := c06Object()
-		o.set(verif.StringIn("f.key", 2, "a-z"), one("f0"))
+		o.set(verif.StringIn("f.key", verif.L(2), "a-z"), one("f0"))
 		doc.set(fjson, o)
 	}
 	ok := e.valid(root, doc, 0)
@@ -346,7 +346,7 @@ func VerifC06Flatten() {
 	verif.SetExt(opts, http.E_Flatten, true)
 	prefix := ""
 	if verif.Bool("prefix.set") {
-		prefix = verif.StringIn("prefix", 3, "a-z_")
+		prefix = verif.StringIn("prefix", verif.L(3), "a-z_")
 		verif.SetExt(opts, http.E_FlattenPrefix, prefix)
 	}
 	// rule R6: flattened keys do not collide with the parent's own keys
@@ -397,7 +397,7 @@ func VerifC06Oneof() {
 	msg := c06Msg("Msg")
 	c06Add(msg, &verif.FieldDesc{FName: "id", FJSON: "id", FKind: protoreflect.StringKind})
 	flatten := verif.Bool("oneof.flatten")
-	disc := verif.StringIn("oneof.discriminator", 4, "a-z")
+	disc := verif.StringIn("oneof.discriminator", verif.L(4), "a-z")
 	verif.Assume(disc != "")
 	// rule R7: the discriminator is not the JSON name of another field; with flatten, not a child key
 	verif.Assume(disc != "id" && disc != "text" && disc != "img")
@@ -418,7 +418,7 @@ func VerifC06Oneof() {
 	mk := func(i int, name string, isMsg bool, target *protogen.Message) *protogen.Field {
 		o := &descriptorpb.FieldOptions{}
 		if verif.Bool(name + ".customValue") {
-			cv := verif.StringIn(name+".oneof_value", 3, "a-z")
+			cv := verif.StringIn(name+".oneof_value", verif.L(3), "a-z")
 			verif.Assume(cv != "")
 			verif.SetExt(o, http.E_OneofValue, cv)
 			vals[i] = cv
@@ -552,7 +552,7 @@ func VerifC06Unwrap() {
 		if verif.Bool("entry.present") {
 			v, nf := el.value(w, "e")
 			verif.Assume(!nf)
-			doc.set(verif.StringIn("key", 2, "a-z"), v)
+			doc.set(verif.StringIn("key", verif.L(2), "a-z"), v)
 		}
 	case 2:
 		o := &descriptorpb.FieldOptions{}
@@ -560,7 +560,7 @@ func VerifC06Unwrap() {
 		mkMap(msg, "by_key", o, protoreflect.MessageKind, wrapper, false)
 		doc = c06Object()
 		if verif.Bool("entry.present") {
-			doc.set(verif.StringIn("key", 2, "a-z"), elemArr("e"))
+			doc.set(verif.StringIn("key", verif.L(2), "a-z"), elemArr("e"))
 		}
 	case 3:
 		c06Add(msg, &verif.FieldDesc{FName: "id", FJSON: "id", FKind: protoreflect.StringKind})
@@ -568,7 +568,7 @@ func VerifC06Unwrap() {
 		doc = c06Object()
 		if verif.Bool("entry.present") {
 			m := c06Object()
-			m.set(verif.StringIn("key", 2, "a-z"), elemArr("e"))
+			m.set(verif.StringIn("key", verif.L(2), "a-z"), elemArr("e"))
 			doc.set("by_key", m)
 		}
 	}
